@@ -46,7 +46,7 @@ def run(ctx):
         ctx.partial.append('RACE DETECTOR NOT AVAILABLE: harness built without -race; stress + schedule-independent facts only')
     thorough = ctx.tier == 'thorough'
     hard = (not proved) or thorough
-    iters = 600 if hard else 150
+    iters = 1500 if thorough else (600 if hard else 150)
     seed = ctx.seed
     jobs = [
         ('plain', ['t-methods', '-goroutines', 0, '-iters', iters, '-seed', seed]),
